@@ -14,11 +14,20 @@ Proof. exact Api.c13_expression. Qed.
 Print Assumptions c13_expression.
 
 
-(* ---- static tie: no field, dereference or element assignment on the evaluation path except on the per-call pointer ---- *)
-From Coq Require Import List String. From Bexpr Require Import GoTables TieWrites. Import ListNotations.
+(* ---- static tie: no assignment to anything shared on the evaluation path, no mutable package state (TieWrites.v) ---- *)
+From Coq Require Import List String Bool. From Bexpr Require Import GoTables TieWrites. Import ListNotations. Open Scope string_scope.
 
-Theorem evaluation_path_writes_only_the_per_call_pointer :
-  evaluation_path_writes = [("evaluate.go", "evaluateNotPresent", "ptr.Parts")].
-Proof. exact TieWrites.evaluation_path_writes_only_the_per_call_pointer. Qed.
-Print Assumptions evaluation_path_writes_only_the_per_call_pointer.
+Theorem evaluation_path_writes_nothing_shared :
+  evaluation_path_shared_writes = [].
+Proof. exact TieWrites.evaluation_path_writes_nothing_shared. Qed.
+Print Assumptions evaluation_path_writes_nothing_shared.
 
+Theorem evaluation_path_is_populated :
+  forallb (fun f => existsb (String.eqb f) go_eval_reachable) ["Evaluate"; "Execute"; "evaluate"] = true.
+Proof. exact TieWrites.evaluation_path_is_populated. Qed.
+Print Assumptions evaluation_path_is_populated.
+
+Theorem no_mutable_package_state :
+  forallb (fun v => match v with (_, _, c) => String.eqb c "fixed" end) go_package_vars = true.
+Proof. exact TieWrites.no_mutable_package_state. Qed.
+Print Assumptions no_mutable_package_state.
